@@ -285,7 +285,7 @@ def run_case(E, case):
     r = {"verdict": dec.verdict, "solver_s": dec.solver_s, "symex_s": time.time() - t0 - dec.solver_s, "n_queries": dec.n_queries,
          "obligations": dec.obligations, "failed_obligations": dec.failed_obligations, "witnesses": dec.witnesses, "candidates": [],
          "encoded": sorted(E.encoded)}
-    if dec.verdict == "sat":
+    if dec.verdict == "sat" and not any(k_ == "bounds" for k_, w_ in dec.failed_obligations):
         r["candidates"].append({"signature": f"{PROP}:{sig_tail}", "case": case, "inputs": jsonable(dec.model), "kind": "property", "labels": dec.which[:4]})
     if dec.failed_obligations:
         r["verdict"] = "sat"
